@@ -82,12 +82,30 @@ def max_abs_coord(glyphs_list):
     return m
 
 
+MAX_RESOLVED_POINTS = 150
+
+
+def prune_size(glyphs_list, limit=MAX_RESOLVED_POINTS):
+    """Keep the fully resolved size of every glyph bounded (nested shared bases grow
+    exponentially; a subroutiniser then needs minutes per font): drop trailing components of a
+    glyph until its resolved outline has at most `limit` points."""
+    glyphs = {g["name"]: g for g in glyphs_list}
+    for g in glyphs_list:         # bases come before the glyphs that use them
+        while g["components"]:
+            n = sum(len(pts) for pts, _ in R.resolve(glyphs, g["name"]))
+            if n <= limit:
+                break
+            g["components"].pop()
+
+
 def bounded_font(rng, mode, **kw):
     """Component font whose RESOLVED coordinates stay within the stated bound (|v| <= 16000, so
-    that CFF deltas and glyf int16 stay encodable) and that has at least one outline."""
+    that CFF deltas and glyf int16 stay encodable), whose resolved glyphs have at most
+    MAX_RESOLVED_POINTS points, and that has at least one outline."""
     big = rng.random() < 0.15
     for _ in range(8):
         glyphs = outlines.component_font(rng, mode=mode, big=big, **kw)
+        prune_size(glyphs)
         if max_abs_coord(glyphs) <= 16000 and any(g["contours"] for g in glyphs):
             return glyphs
         big = False
@@ -149,43 +167,52 @@ def compare_glyph(ref_exact, out_cycles, tol, optimize, npoints):
     unit = 0.005 if optimize >= 2 else 2.0 ** -16
     dev = tol + (npoints + 1) * unit + 1e-6
     ref = got = None
+    drift = (npoints + 1) * unit
     for merge in ([False, True] if optimize >= 1 else [False]):
-        ref = _prep_tol(ref_exact, merge, dev)
-        got = _prep_tol(out_cycles, merge, dev)
-        if len(ref) != len(got):
-            continue
-        ok = True
-        for rc, gc in zip(ref, got):
-            if R.match_cycle_tol(rc, gc, dev) is None:
-                ok = False
-                break
-        if ok:
-            return True, "tolerance" + ("_merge" if merge else ""), None
+        # the re-encoded contour may fail to return exactly to its start (accumulated format
+        # error): a closing sliver shorter than the drift is the implicit closing line
+        for close_slack in (drift, 2 * drift, drift / 2):
+            ref = _prep_tol(ref_exact, merge, 4 * unit, close_slack)
+            got = _prep_tol(out_cycles, merge, 4 * unit, close_slack)
+            if len(ref) != len(got):
+                continue
+            ok = True
+            for rc, gc in zip(ref, got):
+                if R.match_cycle_tol(rc, gc, dev) is None:
+                    ok = False
+                    break
+            if ok:
+                return True, "tolerance" + ("_merge" if merge else ""), None
     return False, "mismatch_tol", {"expected": _show([R.canon_cycle(c) for c in ref]),
                                    "got": _show([R.canon_cycle(c) for c in got]),
                                    "allowed_deviation": dev}
 
 
-def _prep_tol(cycles, merge, dev):
+def _prep_tol(cycles, merge, tiny, close_slack=0.0):
     """Clean cycles for the tolerance comparison: exact draws-nothing operations removed, then
-    segments shorter than the admissible deviation (all points within 2*dev of the segment's
-    start) removed on both sides - they are indistinguishable from a zero-length segment at the
-    precision the property grants."""
+    segments all of whose points lie within `tiny` (a few units of the number format's
+    precision, NOT scaled by the glyph size) of the segment's start removed on both sides: a
+    zero-length source segment survives re-encoding as such a sliver."""
     out = []
     for s, segs in cycles:
         c = R.clean_cycle(s, segs)
         if merge:
-            c = R.merge_axis_cyclic(c)
+            c = R.merge_axis_cyclic(c, eps=tiny)
         if not c:
             continue
         kept = []
         n = len(c)
         for i in range(n):
             a = c[i - 1][-1]
-            if all(abs(float(p[0]) - float(a[0])) <= 2 * dev and abs(float(p[1]) - float(a[1])) <= 2 * dev
+            if all(abs(float(p[0]) - float(a[0])) <= tiny and abs(float(p[1]) - float(a[1])) <= tiny
                    for p in c[i][1:]):
                 continue
             kept.append(c[i])
+        if len(kept) > 1 and kept[-1][0] == "l":
+            a, b = kept[-2][-1], kept[-1][1]
+            if (0 < max(abs(float(a[0]) - float(b[0])), abs(float(a[1]) - float(b[1])))
+                    <= close_slack):
+                kept.pop()
         if kept:
             out.append(kept)
     return out
